@@ -574,7 +574,7 @@ $idxArr = [10, 20, 30]; $idxStr = "xyz"; echo "idx=", $idxArr[0], "|", $idxArr[2
 `
 
 func genPair(r *verifsim.Rng) (a, b string, parts []string) {
-	switch r.Intn(8) {
+	switch r.Intn(10) {
 	case 0, 1:
 		return sameNames(r, "A", false), sameNames(r, "B", true), []string{"same_named_definitions"}
 	case 2:
@@ -613,6 +613,21 @@ for ($i = 0; $i < %d; $i++) {
 }
 `, n)
 		return a, "<?php\n" + basicsProbe + moreProbe, []string{fmt.Sprintf("bulk_distinct_strings_%d", n)}
+	case 7:
+		// A and B use the same regex BODIES with different modifiers (and the same ones):
+		// whatever is remembered per pattern must include everything that changes its meaning
+		bodies := []string{`(?<![a-z])cat`, `(?<=\d)px`, `cat(?=\s)`, `(a)\1`, `(?>do+)g`, `^cat`, `c.t`, `dog$`, `(?<w>c[a-z]t)`, `C A T`}
+		mods := []string{"", "i", "m", "s", "im", "x", "ix"}
+		subj := `"Cat concat CAT\ncat dog\nDOG 10PX 20px aa bb abab"`
+		var ab, bb strings.Builder
+		ab.WriteString("<?php\n$subj = " + subj + ";\n")
+		bb.WriteString("<?php\n$subj = " + subj + ";\n")
+		for _, k := range r.Perm(len(bodies))[:2+r.Intn(5)] {
+			ma, mb := mods[r.Intn(len(mods))], mods[r.Intn(len(mods))]
+			fmt.Fprintf(&ab, "$n = preg_match_all('/%s/%s', $subj, $mm); $t = preg_replace('/%s/%s', \"#\", $subj, 2); $p = preg_split('/%s/%s', $subj);\n", bodies[k], ma, bodies[k], ma, bodies[k], ma)
+			fmt.Fprintf(&bb, "echo \"regex_variant%d=\", preg_match_all('/%s/%s', $subj, $mm), \"|\", preg_replace('/%s/%s', \"#\", $subj, 2), \"|\", count(preg_split('/%s/%s', $subj)), \"\\n\";\n", k, bodies[k], mb, bodies[k], mb, bodies[k], mb)
+		}
+		return ab.String(), bb.String(), []string{"regex_same_body_other_modifiers"}
 	case 6:
 		// A and B include the same files (by absolute path): what a file defines and returns
 		// must reach every VM that includes it, whatever an earlier VM of the process did with it
